@@ -1,6 +1,8 @@
 /- Helper lemmas for C06Reach: what the events record in the during-job masks while a tagging job is in flight. -/
 import Pk.Proofs.MgrTagsStep
 import Pk.Proofs.MgrSettleFrame
+import Pk.Proofs.MgrTruthFrame
+import Pk.Proofs.MgrTruthDrop
 namespace Pk.Proofs.MgrTruth
 open Pk.Mgr Pk.Proofs.MgrTags
 
@@ -240,5 +242,327 @@ theorem markDel_masks (s : St) (name : String) (ids : List Nat) (st : Started) (
   rw [markTail_rst _ _ h2, h3]
   simp only [mem_union, muDel_unc, muAdd_unc, muAdd_mat]
   rcases hid with h | ⟨h1, h2⟩ <;> simp [*]
+
+/-! ## events that drop converter output (`updConv` / `delTag` detaching a converter from its last tag) -/
+
+theorem union_nil_iff (a b : IdSet) : union a b = [] ↔ a = [] ∧ b = [] := by
+  simp only [List.eq_nil_iff_forall_not_mem, mem_union]
+  constructor
+  · intro h; exact ⟨fun x hx => h x (Or.inl hx), fun x hx => h x (Or.inr hx)⟩
+  · rintro ⟨h1, h2⟩ x (hx | hx)
+    · exact h1 x hx
+    · exact h2 x hx
+
+theorem othersOf_nil_aux (n c : String) (T : List (String × Tag)) (acc : IdSet) :
+    T.foldl (fun acc (p : String × Tag) => if p.1 != n && p.2.convs.contains c then union acc p.2.mat else acc) acc = [] ↔
+      acc = [] ∧ ∀ p ∈ T, p.1 ≠ n → c ∈ p.2.convs → p.2.mat = [] := by
+  induction T generalizing acc with
+  | nil => simp
+  | cons q T ih =>
+    simp only [List.foldl_cons, ih, List.mem_cons, forall_eq_or_imp]
+    by_cases h : (q.1 != n && q.2.convs.contains c) = true
+    · simp only [h, if_true, union_nil_iff]
+      simp only [Bool.and_eq_true, bne_iff_ne, ne_eq, List.contains_iff_mem] at h
+      constructor
+      · rintro ⟨⟨h1, h2⟩, h3⟩; exact ⟨h1, fun _ _ => h2, h3⟩
+      · rintro ⟨h1, h2, h3⟩; exact ⟨⟨h1, h2 h.1 h.2⟩, h3⟩
+    · simp only [h]
+      simp only [Bool.and_eq_true, bne_iff_ne, ne_eq, List.contains_iff_mem, not_and] at h
+      constructor
+      · rintro ⟨h1, h3⟩; exact ⟨h1, fun a b => absurd b (h a), h3⟩
+      · rintro ⟨h1, _, h3⟩; exact ⟨h1, h3⟩
+
+/-- no OTHER tag with converter `c` attached matches anything -/
+theorem othersOf_nil_iff (T : List (String × Tag)) (n c : String) :
+    othersOf T n c = [] ↔ ∀ p ∈ T, p.1 ≠ n → c ∈ p.2.convs → p.2.mat = [] := by
+  unfold othersOf
+  rw [othersOf_nil_aux]
+  simp
+
+theorem sget_mem_pair {α} (l : List (String × α)) (k : String) (v : α) (h : sget l k = some v) : (k, v) ∈ l := by
+  induction l with
+  | nil => simp at h
+  | cons p r ih =>
+    obtain ⟨k2, v2⟩ := p
+    rw [sget_cons] at h
+    split at h
+    · rename_i e; subst e; cases h; exact List.mem_cons_self
+    · exact List.mem_cons_of_mem _ (ih h)
+
+theorem mem_sins_cases {α} (k : String) (v : α) (l : List (String × α)) (x : String × α)
+    (h : x ∈ sins k v l) : x = (k, v) ∨ x ∈ l := by
+  induction l with
+  | nil => simpa [sins] using h
+  | cons a l ih =>
+    obtain ⟨ak, av⟩ := a
+    unfold sins at h
+    split at h
+    · simpa using h
+    · split at h
+      · simp only [List.mem_cons] at h ⊢
+        rcases h with h | h
+        · exact Or.inl h
+        · exact Or.inr (Or.inr h)
+      · simp only [List.mem_cons] at h ⊢
+        rcases h with h | h
+        · exact Or.inr (Or.inl h)
+        · rcases ih h with h | h
+          · exact Or.inl h
+          · exact Or.inr (Or.inr h)
+
+/-- every entry of `T` other than `name` has the converters and the matches of an entry of `T0` other than `name` -/
+def Src (name : String) (T0 T : List (String × Tag)) : Prop :=
+  ∀ p ∈ T, p.1 ≠ name → ∃ q ∈ T0, q.1 ≠ name ∧ q.2.convs = p.2.convs ∧ q.2.mat = p.2.mat
+
+theorem Src.refl (name : String) (T : List (String × Tag)) : Src name T T :=
+  fun p hp hn => ⟨p, hp, hn, rfl, rfl⟩
+
+theorem src_sins_name {name : String} {T0 T : List (String × Tag)} (h : Src name T0 T) (t' : Tag) :
+    Src name T0 (sins name t' T) := by
+  intro p hp hn
+  rcases mem_sins_cases _ _ _ _ hp with rfl | hp
+  · exact absurd rfl hn
+  · exact h p hp hn
+
+theorem src_sins_rel {name m : String} {T0 T : List (String × Tag)} {t t' : Tag} (h : Src name T0 T)
+    (hm : sget T m = some t) (hc : t'.convs = t.convs) (hmat : t'.mat = t.mat) : Src name T0 (sins m t' T) := by
+  intro p hp hn
+  rcases mem_sins_cases _ _ _ _ hp with rfl | hp
+  · obtain ⟨q, hq, h1, h2, h3⟩ := h (m, t) (sget_mem_pair _ _ _ hm) hn
+    exact ⟨q, hq, h1, h2.trans hc.symm, h3.trans hmat.symm⟩
+  · exact h p hp hn
+
+theorem src_map {name : String} {T0 T : List (String × Tag)} (h : Src name T0 T) (f : String → Tag → Tag)
+    (hf : ∀ k t, (f k t).convs = t.convs ∧ (f k t).mat = t.mat) :
+    Src name T0 (T.map fun p => (p.1, f p.1 p.2)) := by
+  intro p hp hn
+  obtain ⟨p0, hp0, rfl⟩ := List.mem_map.mp hp
+  obtain ⟨q, hq, h1, h2, h3⟩ := h p0 hp0 hn
+  exact ⟨q, hq, h1, h2.trans (hf _ _).1.symm, h3.trans (hf _ _).2.symm⟩
+
+theorem inheritOne_convs_mat (all : Nat) (T : List (String × Tag)) (t : Tag) :
+    (inheritOne all T t).convs = t.convs ∧ (inheritOne all T t).mat = t.mat := by
+  unfold inheritOne
+  split
+  · exact ⟨rfl, rfl⟩
+  · split <;> exact ⟨rfl, rfl⟩
+
+theorem passStep_src (all : Nat) (name : String) (T0 : List (String × Tag)) (acc) (nt : String × Tag)
+    (h : Src name T0 acc.1) : Src name T0 (passStep all acc nt).1 := by
+  unfold passStep
+  split
+  · exact h
+  · split
+    · exact h
+    · rename_i t ht
+      split
+      · exact src_sins_rel h ht (inheritOne_convs_mat _ _ _).1 (inheritOne_convs_mat _ _ _).2
+      · exact h
+
+theorem inherit_src {name : String} {T0 : List (String × Tag)} (s : St) (h : Src name T0 s.tags) :
+    Src name T0 (inherit s).tags := by
+  obtain ⟨res, h, _⟩ := inheritLoop_inv s.all (fun acc => Src name T0 acc.1)
+    (passStep_src s.all name T0) (s.tags.length + 1) s.tags [] h
+  exact h
+
+theorem odF_convs_mat (all : Nat) (t : Tag) : (odF all t).convs = t.convs ∧ (odF all t).mat = t.mat := by
+  unfold odF; split <;> exact ⟨rfl, rfl⟩
+
+/-- the tag table after an `outputDropped` that acts -/
+theorem outputDropped_tags (Z : St) (choice : Option String)
+    (hp : Z.tags.any (fun nt => (nt.2.mfeat ||| nt.2.sfeat) &&& fData != 0) = true) :
+    (outputDropped Z choice).tags =
+      (inherit { Z with tags := Z.tags.map fun p => (p.1, odF Z.all p.2) }).tags := by
+  rw [outputDropped_eq, if_pos hp]
+  exact ((invalidatedDuring_same _ _).trans (startTagging_same _ _)).1
+
+theorem outputDropped_idle (Z : St) (choice : Option String)
+    (hp : ¬ Z.tags.any (fun nt => (nt.2.mfeat ||| nt.2.sfeat) &&& fData != 0) = true) :
+    outputDropped Z choice = Z := by
+  rw [outputDropped_eq, if_neg hp]
+
+theorem outputDropped_src {name : String} {T0 : List (String × Tag)} (Z : St) (choice : Option String)
+    (h : Src name T0 Z.tags) : Src name T0 (outputDropped Z choice).tags := by
+  by_cases hp : Z.tags.any (fun nt => (nt.2.mfeat ||| nt.2.sfeat) &&& fData != 0) = true
+  · rw [outputDropped_tags Z choice hp]
+    apply inherit_src
+    exact src_map h (fun _ t => odF Z.all t) (fun _ t => odF_convs_mat _ t)
+  · rw [outputDropped_idle Z choice hp]; exact h
+
+/-! the pieces of `detachConv` -/
+def dcTag (tX : Tag) (c : String) : Tag := { tX with convs := tX.convs.filter (· != c) }
+def dcOthers (X : St) (name c : String) (tX : Tag) : IdSet := othersOf (sins name (dcTag tX c) X.tags) name c
+def dcBase (X : St) (name c : String) (tX : Tag) : St :=
+  { X with tags := sins name (dcTag tX c) X.tags,
+           toconv := sins c (inter ((sget X.toconv c).getD []) (dcOthers X name c tX)) X.toconv }
+
+theorem detachConv_dc (X : St) (name c : String) (choice : Option String) (tX : Tag)
+    (hx : sget X.tags name = some tX) :
+    detachConv X name c choice =
+      if (dcOthers X name c tX).isEmpty then
+        outputDropped { dcBase X name c tX with cached := sins c [] X.cached } choice
+      else dcBase X name c tX := by
+  unfold detachConv
+  rw [hx]
+  rfl
+
+theorem detachConv_src {name : String} {T0 : List (String × Tag)} (X : St) (c : String) (choice : Option String)
+    (tX : Tag) (hx : sget X.tags name = some tX) (h : Src name T0 X.tags) :
+    Src name T0 (detachConv X name c choice).tags := by
+  rw [detachConv_dc X name c choice tX hx]
+  split
+  · exact outputDropped_src _ _ (src_sins_name h _)
+  · exact src_sins_name h _
+
+/-- the model's `others` at an intermediate state is empty when it is empty in the pre-state -/
+theorem dcOthers_nil {name : String} {T0 : List (String × Tag)} (X : St) (c : String) (tX : Tag)
+    (h : Src name T0 X.tags) (h0 : othersOf T0 name c = []) : dcOthers X name c tX = [] := by
+  unfold dcOthers
+  rw [othersOf_nil_iff] at h0 ⊢
+  intro p hp hn hc
+  obtain ⟨q, hq, h1, h2, h3⟩ := src_sins_name h (dcTag tX c) p hp hn
+  rw [← h3]
+  exact h0 q hq h1 (h2 ▸ hc)
+
+theorem payload_any {T : List (String × Tag)} {n : String} {t : Tag} (hg : sget T n = some t) (hp : Payload t) :
+    T.any (fun nt => (nt.2.mfeat ||| nt.2.sfeat) &&& fData != 0) = true := by
+  rw [List.any_eq_true]
+  exact ⟨(n, t), sget_mem_pair _ _ _ hg, by simpa [Payload] using hp⟩
+
+theorem payload_of_attrs {t t' : Tag} (h : Attrs t' = Attrs t) (hp : Payload t) : Payload t' := by
+  simp only [Attrs, Prod.mk.injEq] at h
+  unfold Payload at hp ⊢
+  rw [h.2.2.1, h.2.2.2.1]; exact hp
+
+/-- a payload tag of the pre-state is a payload tag of every table with the same attributes -/
+theorem payload_akeep {T0 T : List (String × Tag)} (hak : ∀ n, AKeep n T0 T)
+    (hp : ∃ n t, sget T0 n = some t ∧ Payload t) : ∃ n t, sget T n = some t ∧ Payload t := by
+  obtain ⟨n, t, hg, hpt⟩ := hp
+  have := hak n
+  unfold AKeep at this
+  rw [hg] at this
+  obtain ⟨t', h1, h2⟩ := Option.map_eq_some_iff.mp this
+  exact ⟨n, t', h1, payload_of_attrs h2 hpt⟩
+
+theorem dcBase_any (X : St) (name c : String) (tX : Tag) (hx : sget X.tags name = some tX)
+    (hp : ∃ n t, sget X.tags n = some t ∧ Payload t) :
+    (dcBase X name c tX).tags.any (fun nt => (nt.2.mfeat ||| nt.2.sfeat) &&& fData != 0) = true := by
+  obtain ⟨n, t, hg, hpt⟩ := hp
+  by_cases hn : name = n
+  · subst hn
+    rw [hx] at hg; cases hg
+    exact payload_any (n := name) (t := dcTag tX c) (by simp [dcBase, sget_sins]) hpt
+  · exact payload_any (n := n) (t := t) (by simp [dcBase, sget_sins, hn, hg]) hpt
+
+/-- `outputDropped` while a tagging job runs: the flag stays, `rst` only grows, and if it acts every stream
+    is recorded in `rst` -/
+theorem outputDropped_rst (Z : St) (choice : Option String) (ht : Z.tag = true) :
+    (outputDropped Z choice).tag = true ∧ (outputDropped Z choice).all = Z.all ∧
+    (∀ id, id ∈ Z.rst → id ∈ (outputDropped Z choice).rst) ∧
+    (Z.tags.any (fun nt => (nt.2.mfeat ||| nt.2.sfeat) &&& fData != 0) = true →
+      ∀ id, id < Z.all → id ∈ (outputDropped Z choice).rst) := by
+  by_cases hp : Z.tags.any (fun nt => (nt.2.mfeat ||| nt.2.sfeat) &&& fData != 0) = true
+  · rw [outputDropped_eq, if_pos hp]
+    generalize hW : inherit { Z with tags := Z.tags.map fun p => (p.1, odF Z.all p.2) } = W
+    have h0 : mp W = mp Z := by rw [← hW]; rfl
+    have htw : W.tag = true := (mp_tag h0).trans ht
+    rw [invDuring_of_tag _ _ htw,
+      startTagging_of_tag _ _ (show ({ W with rst := union W.rst (rangeSet Z.all) } : St).tag = true from htw)]
+    refine ⟨htw, (mp_all h0 : W.all = Z.all), fun id h => ?_, fun _ id h => ?_⟩
+    · show id ∈ union W.rst (rangeSet Z.all)
+      rw [mp_rst h0]; simp [h]
+    · show id ∈ union W.rst (rangeSet Z.all)
+      simp [h]
+  · rw [outputDropped_idle Z choice hp]
+    exact ⟨ht, rfl, fun _ h => h, fun h => absurd h hp⟩
+
+theorem detachConv_rst (X : St) (name c : String) (choice : Option String) (tX : Tag)
+    (hx : sget X.tags name = some tX) (ht : X.tag = true) :
+    (detachConv X name c choice).tag = true ∧ (detachConv X name c choice).all = X.all ∧
+    (∀ id, id ∈ X.rst → id ∈ (detachConv X name c choice).rst) ∧
+    (dcOthers X name c tX = [] → (∃ n t, sget X.tags n = some t ∧ Payload t) →
+      ∀ id, id < X.all → id ∈ (detachConv X name c choice).rst) := by
+  rw [detachConv_dc X name c choice tX hx]
+  split
+  · obtain ⟨h1, h2, h3, h4⟩ := outputDropped_rst { dcBase X name c tX with cached := sins c [] X.cached } choice ht
+    exact ⟨h1, h2, h3, fun _ hp => h4 (dcBase_any X name c tX hx hp)⟩
+  · rename_i hne
+    exact ⟨ht, rfl, fun _ h => h, fun h0 => absurd (by rw [h0]; rfl) hne⟩
+
+/-- the fold of `detachConv` calls of an `updConv` / `delTag` while a tagging job runs -/
+theorem detachFold_rst (name : String) (choice : Option String) (T0 : List (String × Tag)) (all : Nat)
+    (hname : ∃ t, sget T0 name = some t) (hp : ∃ n t, sget T0 n = some t ∧ Payload t)
+    (L : List String) (X : St) (hall : X.all = all) (htag : X.tag = true)
+    (hak : ∀ n, AKeep n T0 X.tags) (hsrc : Src name T0 X.tags) :
+    (L.foldl (fun s c => detachConv s name c choice) X).tag = true ∧
+    (L.foldl (fun s c => detachConv s name c choice) X).all = all ∧
+    (∀ id, id ∈ X.rst → id ∈ (L.foldl (fun s c => detachConv s name c choice) X).rst) ∧
+    ((∃ c, c ∈ L ∧ othersOf T0 name c = []) →
+      ∀ id, id < all → id ∈ (L.foldl (fun s c => detachConv s name c choice) X).rst) := by
+  induction L generalizing X with
+  | nil => exact ⟨htag, hall, fun _ h => h, fun ⟨c, hc, _⟩ => by cases hc⟩
+  | cons c L ih =>
+    simp only [List.foldl_cons]
+    obtain ⟨t0, ht0⟩ := hname
+    obtain ⟨tX, hx⟩ : ∃ tX, sget X.tags name = some tX := by
+      have := hak name
+      unfold AKeep at this
+      rw [ht0] at this
+      obtain ⟨t', h1, _⟩ := Option.map_eq_some_iff.mp this
+      exact ⟨t', h1⟩
+    obtain ⟨s1, s2, s3, s4⟩ := detachConv_rst X name c choice tX hx htag
+    have hak' : ∀ n, AKeep n T0 (detachConv X name c choice).tags :=
+      fun n => (hak n).trans (detachConv_afr X name c choice n trivial)
+    have hsrc' := detachConv_src X c choice tX hx hsrc
+    obtain ⟨f1, f2, f3, f4⟩ := ih (detachConv X name c choice) (s2.trans hall) s1 hak' hsrc'
+    refine ⟨f1, f2, fun id h => f3 id (s3 id h), ?_⟩
+    rintro ⟨c', hc', h0⟩ id hid
+    rcases List.mem_cons.mp hc' with rfl | hc'
+    · exact f3 id (s4 (dcOthers_nil X c' tX hsrc h0) (payload_akeep hak hp) id (hall ▸ hid))
+    · exact f4 ⟨c', hc', h0⟩ id hid
+
+theorem attachConv_mp (s : St) (n c : String) : mp (attachConv s n c).1 = mp s := by
+  unfold attachConv; frame
+
+theorem dropped_masks (s : St) (e : Ev) (st : Started)
+    (he : (∃ name convs, e = .updConv name convs) ∨ (∃ name, e = .delTag name))
+    (hok : (step s e st).2 = Res.ok) (hd : DropsOutput s e)
+    (hp : ∃ n t, sget s.tags n = some t ∧ Payload t) (ht : s.tag = true) :
+    ∀ id, id < s.all → id ∈ (step s e st).1.rst := by
+  obtain ⟨c, hc, h0⟩ := hd
+  rcases he with ⟨name, convs, rfl⟩ | ⟨name, rfl⟩
+  · revert hok
+    rw [step_updConv_eq]
+    simp only [detached, evName] at hc h0
+    split
+    · intro h; cases h
+    · rename_i t hg
+      rw [hg] at hc
+      split
+      · intro h; cases h
+      · intro _ id hid
+        obtain ⟨_, _, _, f4⟩ := detachFold_rst name st.tag s.tags s.all ⟨t, hg⟩ hp
+          (t.convs.filter (fun c => !convs.contains c)) s rfl ht (fun n => AKeep.refl _ _) (Src.refl _ _)
+        show id ∈ (startConverter (ucAttach (ucDetach s name t convs st.tag) name convs)).rst
+        rw [mp_rst (startConverter_mp _)]
+        unfold ucAttach
+        rw [mp_rst (foldl_mp _ (fun s c => attachConv_mp s name c) _ _)]
+        exact f4 ⟨c, hc, h0⟩ id hid
+  · revert hok
+    rw [step_delTag_eq]
+    simp only [detached, evName] at hc h0
+    split
+    · intro h; cases h
+    · rename_i t hg
+      rw [hg] at hc
+      split
+      · intro h; cases h
+      · intro _ id hid
+        obtain ⟨_, _, _, f4⟩ := detachFold_rst name st.tag s.tags s.all ⟨t, hg⟩ hp
+          t.convs s rfl ht (fun n => AKeep.refl _ _) (Src.refl _ _)
+        show id ∈ (dtApply s name t st.tag).rst
+        unfold dtApply
+        rw [mp_rst (foldl_mp _ (fun s r => delRefBy_mp s r name) _ _)]
+        exact f4 ⟨c, hc, h0⟩ id hid
 
 end Pk.Proofs.MgrTruth
